@@ -175,6 +175,12 @@ func c16Check(h []byte, via string) (kind, msg string) {
 				break // accepted without the signature: reported below
 			}
 		}
+	case "bufio+seeker": // a caller's type that embeds a *bufio.Reader and also offers Seek (on the file underneath the buffer)
+		under := bytes.NewReader(prof)
+		p, err, pan = readProfile(struct {
+			*bufio.Reader
+			io.Seeker
+		}{bufio.NewReaderSize(under, 64), under})
 	case "short-reads":
 		p, err, pan = readProfile(shortByteReader{src.New(prof).Sizes(1, 2, 3, 5)})
 	case "bytes.Reader@offset": // a reader that has already been consumed up to where the profile starts
@@ -581,7 +587,7 @@ func runC16(r *core.Run) {
 		}
 		r.AddEvals(1)
 		if i%17 == 0 {
-			for _, via := range []string{"png", "bufio@4000", "short-reads", "bytes.Reader@offset", "strings.Reader@offset", "bytes.Buffer", "section", "second-in-reader", "after-rejected", "data-reused", "reader-reused", "second-in-custom-reader", "data-asked-thrice", "second-after-odd-length", "same-reader-after-rejected", "bufio-prefix"} {
+			for _, via := range []string{"png", "bufio@4000", "short-reads", "bytes.Reader@offset", "strings.Reader@offset", "bytes.Buffer", "section", "second-in-reader", "after-rejected", "data-reused", "reader-reused", "second-in-custom-reader", "data-asked-thrice", "second-after-odd-length", "same-reader-after-rejected", "bufio-prefix", "bufio+seeker"} {
 				if kind, msg := c16Check(h, via); kind != "" {
 					r.Violate("header", kind+"/"+via, msg, c16Case{Header: hex.EncodeToString(h), Via: via})
 				}
